@@ -124,13 +124,18 @@ class SdkDriver:
                     self.loops.pop()
         elif k == "loop_until":
             mx, body, f, v = s[1], s[2], s[3], s[4]
-            with conn.loop_until(mx) as loop:
-                self.loops.append({"i": loop.loop_register, "elt": None})
-                try:
+            cleanup = s[5] if len(s) > 5 else None
+            frame: Dict[str, Any] = {"i": None, "elt": None}
+            self.loops.append(frame)      # the frame stays until the context has closed: the clean-up routine is built then
+            try:
+                with conn.loop_until(mx) as loop:
+                    frame["i"] = loop.loop_register
                     self.run(body)
-                finally:
-                    self.loops.pop()
-                loop.set_exit_condition(ValueAtMostConstraint(self.futs[f], v))
+                    loop.set_exit_condition(ValueAtMostConstraint(self.futs[f], v))
+                    if cleanup:
+                        loop.set_cleanup_code(lambda c: self.run(cleanup))
+            finally:
+                self.loops.pop()
         elif k == "add":
             target, other, mod = s[1], s[2], s[3]
             t = self.cvalue(target)
